@@ -26,6 +26,30 @@ theorem C20_filter_is_prune (f : Attr → Bool) (hf : CfgOnly f) (env : FeatEnv)
       rw [buildKids_prune f hf env top {} ks hw hk]
       simp only [ebind_ok, checkNames_prune hn, epure]
 
+/-- **C20 (rpcs and notifications).** The input and output of an rpc and a notification are trees of their own, built like
+    the data tree (configuration and current at their roots, `buildSchemaTree`): for every list of such bodies, each one
+    compiles under the filter to its unfiltered tree pruned top-down. -/
+theorem C20_operation_trees (f : Attr → Bool) (hf : CfgOnly f) (env : FeatEnv) (bodies : List (List A))
+    (hw : ∀ b ∈ bodies, wfKids b = true) (fulls : List (List CN))
+    (h : bodies.mapM (compile keepAll env) = .ok fulls) :
+    bodies.mapM (compile f env) = .ok (fulls.map (pruneKids f)) := by
+  induction bodies generalizing fulls with
+  | nil => simp [List.mapM_nil] at h ⊢; subst h; rfl
+  | cons b r ih =>
+    rw [List.mapM_cons] at h ⊢
+    cases hb : compile keepAll env b with
+    | error e => rw [hb] at h; cases h
+    | ok fb =>
+      rw [hb] at h
+      cases hr : r.mapM (compile keepAll env) with
+      | error e => rw [hr] at h; cases h
+      | ok fr =>
+        rw [hr] at h
+        have hfl : fulls = fb :: fr := by cases h; rfl
+        subst hfl
+        rw [C20_filter_is_prune f hf env b fb (hw b (by simp)) hb, ih (fun x hx => hw x (by simp [hx])) fr hr]
+        rfl
+
 /-- the filters of compile_filters.go are of that form -/
 theorem C20_filters_cfgOnly :
     CfgOnly (fun a => a.cfg) ∧ CfgOnly (fun a => !a.cfg) ∧ CfgOnly (fun _ => true) ∧ CfgOnly (fun _ => false) := by
